@@ -151,6 +151,12 @@ func c01Build(kind c01Kind, placement int, delim string, short string, hf bool) 
 		if kind.Optional {
 			units = append(units, []string{S}, []string{L})
 		}
+		// the empty value, attached (it denotes the empty string, or is a conversion fault; never "no argument")
+		if len(kind.Vals)%2 == 0 {
+			units = append(units, []string{L + "="})
+		} else {
+			units = append(units, []string{S + "="})
+		}
 	}
 	units = append(units, []string{"-v"}, []string{"--" + strLong + "=x"}, []string{"-s", "y"}, []string{"add"}, []string{"deep"}, []string{"w"})
 	return &c01Decl{d: d, u: u, units: units}
@@ -179,6 +185,13 @@ func init() {
 		api := c.Bool()
 		hf := c.Bool()
 		kind := c01Kinds[ce.kind]
+		// for API builds whose option under test sits in a group of the parser: also with that group added late, after the
+		// commands exist and after parses on the half-built parser have selected each of them
+		late := false
+		switch ce.placement {
+		case c01PlSub, c01PlNs, c01PlNsNs, c01PlNsShadow, c01PlPlainInNs:
+			late = api && !hf && short == "u" && c.Bool()
+		}
 		ck := fmt.Sprintf("%d/%d/%s/%s/%v", ce.kind, ce.placement, ce.delim, short, hf)
 		cd := c01Cache[ck]
 		if cd == nil {
@@ -210,10 +223,10 @@ func init() {
 				unitNames = append(unitNames, strings.Join(u, " "))
 			}
 		}
-		key := fmt.Sprintf("%s/%v/p%d/%s/%s/api=%v/hf=%v", kind.T.Name, kind.Optional, ce.placement, ce.delim, short, api, hf)
+		key := fmt.Sprintf("%s/%v/p%d/%s/%s/api=%v/hf=%v/late=%v", kind.T.Name, kind.Optional, ce.placement, ce.delim, short, api, hf, late)
 		c.Describe(func() interface{} {
 			return map[string]interface{}{"option_type": kind.T.Name, "optional": kind.Optional, "placement": ce.placement, "delimiter": ce.delim,
-				"short": short, "api_path": api, "help_flag+pass_double_dash": hf, "argv": argv, "tag_of_U": cd.u.Tag()}
+				"short": short, "api_path": api, "group_added_after_commands_and_two_parses": late, "help_flag+pass_double_dash": hf, "argv": argv, "tag_of_U": cd.u.Tag()}
 		})
 		cfg := &ref.Config{D: cd.d}
 		res := ref.Run(cfg, argv)
@@ -223,7 +236,17 @@ func init() {
 		}
 		recordStates(c, key, res, unitNames)
 		var b *decl.Built
-		if api {
+		if late {
+			c.Hit("late-built")
+			b = cd.d.BuildAPIWith(func(hb *decl.Built) {
+				hb.Parser.ParseArgs([]string{"add"})
+				hb.Parser.ParseArgs([]string{"add", "deep"})
+				for _, fc := range hb.Cmds {
+					fc.Active = nil
+				}
+				rezero(hb)
+			})
+		} else if api {
 			b = cd.d.BuildAPI()
 		} else {
 			b = cd.d.BuildTags()
@@ -261,11 +284,11 @@ func init() {
 		Body:       body,
 		Rule: "option under test U of 25 kinds (bool, []bool, string, int, uint8, float64, float32, Duration, *string, *int, []string, []int, []*int, map[string]string, map[string]int, " +
 			"func(), func(string), func(int) error, Unmarshaler, *Unmarshaler, []Unmarshaler, a bool-kinded Unmarshaler, a slice-kinded Unmarshaler, optional-argument string/int) x 11 placements (parser, subgroup, namespaced, doubly namespaced, command, " +
-			"command's namespaced group, sub-subcommand, shadowing an ancestor's option at two depths, shadowing through an identical namespaced long name, plain group nested in a namespaced group) x namespace delimiter {., ::} x short name {u, é} x {struct tags, AddGroup/AddCommand API} " +
-			"x {None, HelpFlag|PassDoubleDash}; every sequence of <= 3 (quick) / <= 4 (thorough) units over all spellings of U with 1-3 values, bystander options, command words and a plain word, plus beyond that bound every unit repeated 5, 8, 9, 10, 16, 17 and 33 times; " +
+			"command's namespaced group, sub-subcommand, shadowing an ancestor's option at two depths, shadowing through an identical namespaced long name, plain group nested in a namespaced group) x namespace delimiter {., ::} x short name {u, é} x {struct tags, AddGroup/AddCommand API, API with the parser's groups added after the commands and after two parses that selected them} " +
+			"x {None, HelpFlag|PassDoubleDash}; every sequence of <= 3 (quick) / <= 4 (thorough) units over all spellings of U with 1-3 values and with the empty attached value (--name= or -u=), bystander options, command words and a plain word, plus beyond that bound every unit repeated 5, 8, 9, 10, 16, 17 and 33 times; " +
 			"oracle = command-line reference model (CLM) + conversion model; compared on every successful parse; states = distinct (declaration, CLM state), distinct = distinct (declaration, error class, #occurrences, value of U)",
 		Assumptions:  []string{"multi-valued optional-argument options are kept out (bare occurrence semantics undocumented)", "flags of a cluster that precede an unknown character are not asserted"},
-		RequiredHits: []string{"compared", "repeated-occurrence", "model-fault"},
+		RequiredHits: []string{"compared", "repeated-occurrence", "model-fault", "late-built"},
 		Bound:        [2]string{"all unit sequences of length <= 3", "all unit sequences of length <= 4"},
 		BudgetS:      [2]int{170, 1500},
 	})
